@@ -19,9 +19,9 @@ CLAIMS = {
  'C12': dict(level='proof',
    text="Lean theorems over the Writer/Reader machines for ALL write segmentations, ALL destination behaviours, ALL ciphertexts (valid or damaged), ALL positive read-size "
         "sequences: the writer emits exactly Spec.encrypt(concatenation) and reports full counts, holds back ≤ one chunk; the reader's released bytes and terminal error equal "
-        "Spec.decrypt independent of read sizes; look-ahead ≤ one chunk + 1 probe byte. Tie: stream.Writer/Reader through verifhook under generated segmentations, piece "
+        "Spec.decrypt independent of read sizes; look-ahead ≤ one chunk + 1 probe byte; readfull_schedule_irrelevant / readfull_is_spec (io.ReadFull, transcribed, over ANY delivery schedule — pieces, empty reads, data together with the end — depends only on the concatenation and the kind of end). Tie: Go's io.ReadFull on scheduled readers vs the transcription; stream.Writer/Reader through verifhook under generated segmentations, piece "
         "schedules (one-byte, data+EOF), buffer sizes, valid and damaged payloads.",
-   note=COMMON_NOTE + "io.ReadFull's independence of the delivery schedule is a stdlib fact, modelled (Src = bytes + end condition) and exercised by the correspondence; "
+   note=COMMON_NOTE + "bufio.Reader (which absorbs empty reads before the STREAM reader's one-byte end probe) and io.MultiReader are modelled as 'the unread remainder' and exercised by nine kinds of source; "
         "counter wrap excluded by the stated bound (< 2^88 chunks).",
    technique="Lean 4 proof (refinement of state machines to a spec, induction over operations) + differential correspondence"),
 }
@@ -46,7 +46,7 @@ CLAIMS.update({
    technique="Lean 4 proof (reduction to HMAC collision) + exhaustive bit-flip/structural-edit correspondence"),
  'C04': dict(level='proof',
    text="Lean theorems for ALL files and identity lists: no_match_structure (all 'incorrect' ⇒ NoIdentityMatch with one cause per identity, no reader), reader_requires_key, other_type_incorrect, "
-        "scrypt_no_stanza_incorrect, wrong_key_reduction / wrong_key_incorrect (a wrong key yields a key only if the AEAD opens under the wrongly derived wrapping key). Tie: disjoint identity lists incl. near-miss passphrases.",
+        "scrypt_no_stanza_incorrect, wrong_key_reduction / wrong_key_incorrect, wrong_passphrase_reduction / wrong_passphrase_incorrect (a wrong key or passphrase yields a key only if the AEAD opens under the wrongly derived wrapping key). NEGATIVE results, proved: finding_K1_* (a passphrase followed by NUL bytes, ≤ 64 bytes in all) and finding_K2_* (for a passphrase > 64 bytes, its SHA-256 digest) are the SAME identity for every file under the concrete scrypt — known findings K1/K2, printed as KNOWN-FINDING lines. Tie: disjoint identity lists incl. near-miss passphrases and keys one bit off, one recipient value writing several files, degenerate identities.",
    note=COMMON_NOTE + PRIM_NOTE + "wrong-key rejection is inherently cryptographic: given in reduction form and under an explicit idealisation.",
    technique="Lean 4 proof + differential correspondence"),
  'C05': dict(level='translation_validation',
@@ -58,7 +58,7 @@ CLAIMS.update({
  'C10': dict(level='proof',
    text="Lean theorems: scrypt_identity_alone (∀ stanza lists with a passphrase stanza and length ≠ 1: fatal, empty KDF log), workfactor_guard + workfactor_canonical + kdf_cost_bounded (a key is derived only for a canonical "
         "positive decimal ≤ max; every derived factor ≤ max; ∀ argument strings, maxima, passphrases), scrypt_never_mixed_encrypt (a list with a passphrase recipient and any native recipient is refused), "
-        "two_scrypt_need_equal_labels (reduction: two passphrase recipients pass only on a collision of two 16-byte draws). Tie: exhaustive positions, work-factor string table, time budget.",
+        "two_scrypt_need_equal_labels (reduction: two passphrase recipients pass only on a collision of two 16-byte draws); for the command line tool's own identity (cmd/age LazyScryptIdentity / EncryptedIdentity, model CliIdent): cli_prompt_iff (asks iff the header is a lone passphrase stanza), cli_passphrase_stanza_alone, cli_wrong_passphrase_fatal, cli_agrees_with_library, cli_encrypted_identity_asks_once, cli_encrypted_identity_failure_keeps_nothing. Tie: exhaustive positions, work-factor string table, whole valid files with companion stanzas of assorted types through age.Decrypt, and the REAL age binary under a pseudo-terminal (right / wrong / empty passphrase, no terminal) on eleven header shapes.",
    note=COMMON_NOTE + PRIM_NOTE + "Two passphrase recipients: refusal holds unless the CSPRNG repeats a 16-byte value (stated as reduction).",
    technique="Lean 4 proof + differential correspondence with work observed through a time budget"),
  'C11': dict(level='proof',
@@ -72,7 +72,7 @@ CLAIMS.update({
  'C02': dict(level='proof',
    text="Lean theorems for ALL byte strings presented as payload: accepts_only_own_chunking (clean EOF ⇒ the input is the canonical encryption of the output: one accepted chunking per key), "
         "tamper_prefix (reduction form: unless the AEAD opens a (nonce, chunk) the encryptor never sealed, the released bytes are a prefix of the plaintext and EOF is reached only with all of it), tampered_never_eof, "
-        "nonce_injective, reader_carries_over (the Reader machine equals the Spec under every read-size sequence). Tie: exhaustive bit flips / truncations of small payloads, boundary offsets of 1–3 chunk payloads, chunk sequences over variants, trailing data, writer crash prefixes.",
+        "nonce_injective, reader_carries_over (the Reader machine equals the Spec under every read-size sequence); at FILE level file_cut_in_nonce and file_payload_tamper (header intact, anything after the nonce: same conclusions through Decrypt, for every identity list that opens the header). Tie: readers drained by Read loops of every size, io.Copy, io.ReadAll, 1 MiB bufio; exhaustive bit flips / truncations of small payloads, boundary offsets of 1–3 chunk payloads, chunk sequences over variants, trailing data, writer crash prefixes.",
    note=COMMON_NOTE + "Prefix-authenticity is inherently cryptographic: the theorem is the assumption-free reduction to an explicit AEAD forgery (DESIGN.md §4); counters below 2^88.",
    technique="Lean 4 proof (induction over chunks; reduction to AEAD forgery) + exhaustive/boundary tamper correspondence"),
  'C06': dict(level='proof',
@@ -83,9 +83,9 @@ CLAIMS.update({
    technique="Lean 4 proof (tape threading, nonce injectivity) + recorded-tape correspondence + regenerated rand-use facts"),
  'C13': dict(level='proof',
    text="Lean theorems: no_silent_loss (∀ destination behaviours, tapes, header write splits, segmentations: if Encrypt, every Write and Close succeed the destination holds exactly the complete file), "
-        "encrypt_failure_no_writer, writer_sticky, write_error_recorded, src_fault_surfaces (a source failing after ANY prefix yields a non-EOF error and a prefix of the plaintext), reader_sticky. "
+        "no_silent_loss_armored (the same with Encrypt writing into an armor writer over ANY destination: the armor writer is itself a destination; runs whose calls all succeed perform only successful destination writes), encrypt_failure_no_writer, writer_sticky, write_error_recorded, src_fault_surfaces (a source failing after ANY prefix yields a non-EOF error and a prefix of the plaintext), reader_sticky. "
         "Tie: destination faults at every byte offset (permanent/once, partial/none) of small files and around every structural boundary of 0–3 chunk files; source faults likewise, through age.Decrypt and stream.Reader.",
-   note=COMMON_NOTE + "Armored variants are covered by the armor model (C08) theorems and correspondence.",
+   note=COMMON_NOTE + "Source faults under the armor reader: C08's armor_src_fault_no_eof / armor_error_leaves_no_data and the armorTrailCases suite.",
    technique="Lean 4 proof (invariant over operations for arbitrary fault behaviour) + exhaustive fault-offset correspondence"),
 })
 
